@@ -121,7 +121,25 @@ func buildScenarios(key echx.KeyPair) []scenario {
 	chBig := tlsref.FragmentMax(0x0301, bb.Outer.Msg())
 	inBig := tlsref.FragmentMax(0x0303, bb.Expected.Msg())
 	plainFrag := tlsref.Fragment(0x0301, plain.Msg(), 2, 60)
+	// the backend's ServerHello / HelloRetryRequest spanning several records (RFC 8446 §5.1 allows any handshake message to be
+	// fragmented; a stack with a small send fragment does it to a ServerHello with a post-quantum key share)
+	shMsg := echx.ServerHelloRecord(sid)[5:]
+	hrrMsg := echx.HRRRecord(sid)[5:]
+	serverFlightFrag := cat(tlsref.Fragment(0x0303, shMsg, 2, 40), serverFlight[len(echx.ServerHelloRecord(sid)):])
+	hrrFrag := tlsref.Fragment(0x0303, hrrMsg, 1, 50)
 	return []scenario{
+		{"accepted-fragmented-serverhello", keys, []step{
+			{dir: 'c', data: cat(ch1, clientTailNoAppFirst), expect: cat(in1, clientTailNoAppFirst), rewritten: [][2]int{{0, len(ch1)}}},
+			{dir: 'b', data: serverFlightFrag, expect: serverFlightFrag},
+			{dir: 'c', data: clientTail, expect: clientTail},
+		}},
+		{"accepted-fragmented-hrr", keys, []step{
+			{dir: 'c', data: ch1, expect: in1, rewritten: [][2]int{{0, len(ch1)}}},
+			{dir: 'b', data: hrrFrag, expect: hrrFrag},
+			{dir: 'c', data: cat(rec(20, 1, "ccs"), ch2, clientTailNoAppFirst), expect: cat(rec(20, 1, "ccs"), in2, clientTailNoAppFirst), rewritten: [][2]int{{6, 6 + len(ch2)}}},
+			{dir: 'b', data: serverFlightFrag, expect: serverFlightFrag},
+			{dir: 'c', data: clientTail, expect: clientTail},
+		}},
 		{"accepted-fragmented-hello", keys, []step{
 			{dir: 'c', data: cat(ch1frag, clientTailNoAppFirst), expect: cat(in1, clientTailNoAppFirst), rewritten: [][2]int{{0, len(ch1frag)}}},
 			{dir: 'b', data: serverFlight, expect: serverFlight},
@@ -839,6 +857,109 @@ func Run(r *ev.Run) {
 		}
 		_ = got
 		r.Eval("temporary-read-error", "pass-through: deadline expiry is not sticky")
+	}
+
+	// ---- bytes that follow an ACCEPTED ClientHello inside its record (first hello and retried hello): they are bytes of the
+	// client's stream like any others - either the connection is refused (the client is told), or the backend receives them
+	// after the reconstructed hello; they must not vanish ----
+	{
+		var acc, hrr *scenario
+		for i := range scs {
+			switch scs[i].name {
+			case "accepted":
+				acc = &scs[i]
+			case "accepted-hrr":
+				hrr = &scs[i]
+			}
+		}
+		if acc == nil || hrr == nil {
+			ev.ToolError("c07: scenarios accepted / accepted-hrr not found")
+		}
+		recLen := func(b []byte) int { return 5 + (int(b[3])<<8 | int(b[4])) }
+		ch1 := acc.steps[0].data[:acc.steps[0].rewritten[0][1]]
+		in1 := acc.steps[0].expect[:recLen(acc.steps[0].expect)]
+		st := hrr.steps[2]
+		ch2 := st.data[st.rewritten[0][0]:st.rewritten[0][1]]
+		in2 := st.expect[st.rewritten[0][0]:][:recLen(st.expect[st.rewritten[0][0]:])]
+		hrrRec := hrr.steps[1].data
+		tail := rec(23, 5, "after")
+		extras := map[string][]byte{"1-zero-byte": {0}, "4-bytes": {0xde, 0xad, 0xbe, 0xef}, "40-zero-bytes": make([]byte, 40), "a-whole-handshake-message": tlsref.HandshakeMsg(11, tlsref.DetBytes("coalesced", 20))}
+		for _, ek := range []string{"1-zero-byte", "4-bytes", "40-zero-bytes", "a-whole-handshake-message"} {
+			extra := extras[ek]
+			for _, retried := range []bool{false, true} {
+				kind := "first-hello"
+				if retried {
+					kind = "retried-hello"
+				}
+				desc := fmt.Sprintf("%s followed by %s inside its record", kind, ek)
+				coalesce := func(chRec []byte) []byte { return tlsref.Record(22, 0x0301, cat(chRec[5:], extra)) }
+				t := memnet.New()
+				var conn *ech.Conn
+				var err error
+				buf := make([]byte, 70000)
+				readAll := func() (got []byte, rerr error) {
+					for i := 0; i < 1000 && t.Pending() > 0; i++ {
+						n, e := conn.Read(buf)
+						got = append(got, buf[:n]...)
+						if e != nil {
+							return got, e
+						}
+					}
+					return got, nil
+				}
+				var got []byte
+				var wantMsg []byte
+				func() {
+					defer func() {
+						if p := recover(); p != nil {
+							r.Violation("panic:bytes-after-accepted-hello", fmt.Sprintf("%s: %v", desc, p), desc)
+							err = fmt.Errorf("panic")
+						}
+					}()
+					if !retried {
+						t.Feed(cat(coalesce(ch1), tail))
+						wantMsg = in1[5:]
+						if conn, err = ech.NewConn(ctxBG, t, ech.WithKeys(acc.keys)); err == nil {
+							got, err = readAll()
+						}
+						return
+					}
+					t.Feed(ch1)
+					if conn, err = ech.NewConn(ctxBG, t, ech.WithKeys(acc.keys)); err != nil {
+						ev.ToolError("c07: accepted hello refused: %v", err)
+					}
+					if n, e := conn.Read(buf); e != nil || n < 5 || !bytes.Equal(buf[5:n], in1[5:]) {
+						ev.ToolError("c07: first hello not delivered: %d %v", n, e)
+					}
+					if _, err = conn.Write(hrrRec); err != nil {
+						ev.ToolError("c07: HelloRetryRequest not written: %v", err)
+					}
+					t.Feed(cat(coalesce(ch2), tail))
+					wantMsg = in2[5:]
+					got, err = readAll()
+				}()
+				oc := "refused"
+				if err == nil {
+					// the handshake bytes delivered (payloads of the leading type-22 records), then the tail
+					var hs []byte
+					rest := got
+					for len(rest) >= 5 && rest[0] == 22 && recLen(rest) <= len(rest) {
+						hs = append(hs, rest[5:recLen(rest)]...)
+						rest = rest[recLen(rest):]
+					}
+					oc = "delivered"
+					if !bytes.Equal(hs, cat(wantMsg, extra)) || !bytes.Equal(rest, tail) {
+						oc = "lost"
+						what := "something else"
+						if bytes.Equal(hs, wantMsg) && bytes.Equal(rest, tail) {
+							what = "the reconstructed hello and the next record, WITHOUT those bytes"
+						}
+						r.Violation("bytes-after-accepted-hello-lost:"+kind, fmt.Sprintf("%s: no error was reported and the backend received %s (%d handshake bytes, want %d = hello %d + %d)", desc, what, len(hs), len(wantMsg)+len(extra), len(wantMsg), len(extra)), desc)
+					}
+				}
+				r.Eval("coalesced-after-accepted:"+desc, "bytes after an accepted hello in its record -> "+oc)
+			}
+		}
 	}
 
 	// ---- every record length x content type, both directions ----
